@@ -43,6 +43,36 @@ STRENGTHENED = {
     "C17-dm1": "cached-property __getattr__ script was listed as not covered -> modelled (T1 tables c17GetattrFixed/MergeOrder), theorem C17_getattr_script_hermetic",
     "C17-dm2": "histories had no refused definitions -> refused twins (three refusal mechanisms) in the history alphabet, theorem C17_later_definitions_keep_entries",
     "C20-dm3": "assigned values always fresh strings -> assignment modes fresh/same/equal/iadd over mutable values",
+    "C08-dm2": "functions' __name__ always equalled the class-body key -> member naming is a dimension (aliases, <lambda>, colliding names, mangled private and dunder-like keys)",
+    "C09-dm2": "fields carried only cmp/eq/order -> every other field option (kw_only, init, alias, repr, hash, metadata, converter, validator, default) varies per field; the model ignores them",
+    "C15-dm3": "user objects were plain functions/literals -> hostile-but-valid objects (unhashable, falsy, raising __eq__/__bool__/__hash__/__len__, eqAll/eqNone) in ten roles",
+    "C16-dm3": "process environment never varied -> validator switch steps in the history alphabet, T1 table configReaders + theorem C16_definitions_never_read_config",
+    "C19-dm3": "default mode had init=True fields and one instance per class -> init=False fields, Factory defaults, repeated instances; freshness/identity of factory results per instance",
+    "C01-em1": "every plain class between a hooked base and a slotted subclass was dropped (K6 avoidance too broad) -> dropped only when the subclass's own class hook is not alive; non-idempotent converters",
+    "C01-em2": "defaults were plain strings -> str/int/bytes subclass instances; a field showing its default must hold the declared object itself",
+    "C01-em3": "factories were truthy closures -> falsy / len-0 / raising-__bool__/__eq__ callable objects as factory, converter, validator; both factory= and Factory()",
+    "C02-em3": "only the callback trace was compared -> post-init hooks that re-store fields or call BaseException.__init__; args compared after construction with the stored objects",
+    "C03-em2": "no class had more than 4 fields -> widths 1..40 and a few up to 150, shared self-unequal values on wide classes, every wide class is also a T3 script case",
+    "C04-em1": "only linear chains -> further bases (mixins, frozen/mutable attrs, diamonds) in either order; theorem C04_frozen_any_base",
+    "C05-em3": "evolve results were never hashed -> every returned object is hashed and compared with a freshly built twin; plain-storage family; hash-first histories",
+    "C06-em2": "hook lists were flat -> hook expressions are trees (nested pipes to depth 4); theorems C06_tree_runs_flat, C06_flatten_order",
+    "C07-em1": "every class got a fresh decorator object -> reused decorator objects primed on a class of another body kind",
+    "C07-em3": "transformers returned attrs's own Attributes -> transformers rebuild fields through evolve()/Attribute() with containers they keep and mutate",
+    "C08-em2": "no user callback ran during class construction -> field_transformer / __init_subclass__ / metaclass / __set_name__ / __attrs_init_subclass__ annotate the class; observable callbackDiff",
+    "C10-em2": "no exception classes, no default factories -> auto_exc chains (model path excRoundtrip), unpassed factories that answer differently during the operation; found K10d, K10e",
+    "C12-em2": "validators had no verdicts -> veto rules on own/other fields, evolve compared with direct construction (exception, values, trace)",
+    "C12-em3": "non-field names were three unknown tokens -> methods, constants, properties, instance-dict extras, dunders, unset init=False fields; found K12a",
+    "C13-em2": "serializer results were the argument or a fresh wrapper -> subst mode: None/falsy/NOTHING/containers/instances as results; theorem C13_serializer_result_is_used",
+    "C14-em2": "fields had default per-field options -> per-field eq/order/hash/repr/init off (own, base, re-declared) for every method group",
+    "C16-em1": "converters carried no annotations -> owner-tagged marker types as annotations on look-alike closures; annotation values in the fingerprint",
+    "C16-em2": "everything ran in the main thread -> thread dimension for creating counting attrs and for running definitions",
+    "C16-em3": "no use steps between definitions, no residue check on plain classes -> Step.use (introspection/use ops), plainMid, non-attrs __dict__ must be unchanged",
+    "C17-em1": "histories had no cached-property bodies, co_filename of nested code not compared -> second (getattr) script per definition, every reachable nested code object checked",
+    "C18-em1": "containers held no equal-but-distinguishable members -> twin groups (1/1.0/True/Decimal(1)...) in every order for every container validator",
+    "C18-em3": "hostile objects scripted type-level dunders only -> liar objects (instance-level dunders, catch-all __getattr__, __class__ lies, SimpleNamespace)",
+    "C19-em1": "only converter fields, two on_setattr configurations -> field kinds (shared/own converter, validator-only, plain) in every order x 11 configurations; theorem C19_assign_each_field",
+    "C20-em2": "every field was an __init__ parameter -> init=False validated fields with all four kinds of default",
+    "C20-em3": "nothing was observed from inside a callback -> probe callbacks run nested ops (getters, construct/assign/validate, own disabled() blocks); theorem C20_switch_moves_only_by_switch_ops",
     "C16-m3": "catalogue classes never were layout-twins with different callables -> tagged twins, behaviour fingerprints",
 }
 
